@@ -48,12 +48,13 @@ def step (line : String) : String :=
   | "apply" :: args =>
     match args.mapM Proto.parseRat with
     | some l =>
-      if l.length = 15 then
+      if l.length = 15 ∨ l.length = 16 then
         let rot := (l.take 9).map (·.floor)
         let o := mkOp rot ((l.drop 9).take 3)
-        let x := l.drop 12
+        let x := (l.drop 12).take 3
+        let w := (l.drop 15).headD 1          -- optional 16th number: the homogeneous coordinate (default 1)
         let r3 := apply3 o x
-        let r4 := apply4 o (x ++ [1])
+        let r4 := apply4 o (x ++ [w])
         let sh (v : List Rat) := " ".intercalate (v.map fun q => toString (roundHalfEven (q * 1000000000)))
         s!"{sh r3} | {sh r4}"
       else "bad-op"
